@@ -62,6 +62,14 @@ def _plan(tier, seed):
                 s["offset"] = seed % 40
             if s["kind"] == "realbc":
                 s["limit_files"] = 80
+        else:
+            # (thorough, seed 3: not finished after 2 h on 10 cores with chains
+            # of 3 write-read rounds through YAML on every graph of n=5)
+            if s["kind"] == "exh" and s["n"] == 5 and not s.get("faults"):
+                s["stride"] = 4
+                s["offset"] = seed % 4
+            if s["kind"] == "exh_sample":
+                s["count"] = max(1, s["count"] // 3)
         out.append(s)
     return out
 
@@ -105,14 +113,14 @@ def _plan2(tier, seed):
     out = _plan1(tier, seed)
     quick = tier == "quick"
     out.append({"kind": "flat_exh", "n": 3, "tier": tier})
-    total = 1500 if quick else 60000
+    total = 1500 if quick else 24000
     per = 250 if quick else 3000
     for start in range(0, total, per):
         out.append({"kind": "flat_rand", "seed": seed, "start": start, "count": per, "tier": tier})
     # graphs that arrive with back edges declared and are restructured afterwards
-    out += _pre.plan(tier, seed, 400, 12000)
-    out += _opf.plan(tier, seed, 300, 10000)
-    total = 600 if quick else 20000
+    out += _pre.plan(tier, seed, 400, 6000)
+    out += _opf.plan(tier, seed, 300, 5000)
+    total = 600 if quick else 8000
     for start in range(0, total, 200 if quick else 2000):
         out.append({"kind": "refused_stage", "seed": seed, "start": start,
                     "count": 200 if quick else 2000, "tier": tier})
